@@ -42,6 +42,12 @@ def run(tier):
                    "harness.daqmx", "replay_daqmx_case",
                    sample_fn=lambda rec: {"cfg": rec["cfg"], "chunkBytes": rec["chunkBytes"], "pos": rec["pos"]},
                    sample_every=997)
+    # scale: a segment of more than 2 GiB (sparse file), DAQmx and plain storage
+    from ..daqmx import large_sparse_check
+    for sig_, b_ in large_sparse_check():
+        chk.violation(sig_, b_)
+    chk.count(2, [0x2A1B, 0x2A1C])
+    chk.validated(2)
     chk.assumptions += ["raw buffer bytes are pseudo-random; expected values are read at the specification's positions "
                         "with an independent fixed-width decode",
                         "a channel whose scalers lie in different raw buffers is generated only with buffers of equal length "
